@@ -29,6 +29,8 @@ MUTATING = ("mkdir", "open_w", "write", "unlink", "symlink", "rename")
 class FS:
     def __init__(self):
         self.nodes = {"/": ("dir",)}
+        self.files = {}  # inode -> bytes; a ("file", inode) node names it, open handles keep it alive
+        self._next_ino = 1
         self.cwd = "/"
         self.count = 0  # number of mutating ops performed so far (crash points)
         self.crash_at = None  # index of the mutating op that is NOT completed
@@ -40,6 +42,9 @@ class FS:
 
     def clone_state(self):
         return dict(self.nodes)
+
+    def content(self, node):
+        return self.files[node[1]]
 
     # ------------------------------------------------------------------ resolution
     def _abs(self, p):
@@ -140,16 +145,17 @@ class FS:
             raise FileNotFoundError(errno.ENOENT, "No such file or directory", path)
         if node is None:
             self.created.append(p)
-        self.nodes[p] = ("file", b"")
-        return Handle(self, p, "w")
+            ino = self._next_ino
+            self._next_ino = ino + 1
+            self.nodes[p] = ("file", ino)
+        else:
+            ino = node[1]  # O_TRUNC on the existing inode
+        self.files[ino] = b""
+        return Handle(self, p, "w", ino)
 
     def _write(self, handle, data):
-        node = self.nodes.get(handle.path)
-        if node is None or node[0] != "file":
-            # the file was unlinked while open: data goes to an anonymous inode
-            handle.orphan = (handle.orphan or b"") + data
-            return len(data)
-        self.nodes[handle.path] = ("file", node[1] + data)
+        # the handle refers to the inode, wherever its name was moved meanwhile
+        self.files[handle.ino] = self.files[handle.ino] + data
         return len(data)
 
     def _open_r(self, path):
@@ -158,13 +164,10 @@ class FS:
             raise FileNotFoundError(errno.ENOENT, "No such file or directory", path)
         if node[0] == "dir":
             raise IsADirectoryError(errno.EISDIR, "Is a directory", path)
-        return Handle(self, p, "r")
+        return Handle(self, p, "r", node[1])
 
     def _readall(self, handle):
-        node = self.nodes.get(handle.path)
-        if node is None or node[0] != "file":
-            return b""
-        return node[1]
+        return self.files[handle.ino]
 
     def _unlink(self, path):
         p, node = self.resolve(path, False)
@@ -256,18 +259,22 @@ class FS:
         p, node = self.resolve(path, True)
         if node is None or node[0] != "file":
             return None
-        return node[1]
+        return self.files[node[1]]
 
 
 class Handle:
-    def __init__(self, fs, path, mode):
+    """A buffered binary file object, as open(path, 'wb' / 'rb') returns: written data stays in the
+    process (lost if the process is killed) until flush() / close() issue the write."""
+
+    def __init__(self, fs, path, mode, ino):
         self.fs = fs
         self.path = path
         self.mode = mode
-        self.orphan = None
+        self.ino = ino
         self.closed = False
         self._pos = 0
         self._data = None
+        self._buf = None
 
     # file-object protocol used by dds, json and pickle
     def __enter__(self):
@@ -282,7 +289,18 @@ class Handle:
             raise OSError("not writable")
         if isinstance(data, (bytearray, memoryview)):
             data = bytes(data)
-        return self.fs.do("write", self, data)
+        self._buf = data if self._buf is None else self._buf + data
+        return len(data)
+
+    def flush(self):
+        if self._buf is not None:
+            data, self._buf = self._buf, None
+            self.fs.do("write", self, data)
+
+    def close(self):
+        if not self.closed:
+            self.closed = True
+            self.flush()
 
     def _load(self):
         if self._data is None:
@@ -310,13 +328,6 @@ class Handle:
         data = self.read(len(b))
         b[: len(data)] = data
         return len(data)
-
-    def flush(self):
-        pass
-
-    def close(self):
-        self.closed = True
-
 
 class PathFacade:
     def __init__(self, fs):
@@ -533,3 +544,146 @@ def selftest():
                     return "fs model disagrees with the OS in script %d at step %d %r: real %r, model %r" % (si, k, script[k][:2], a, b)
             return "fs model disagrees with the OS in script %d" % si
     return None
+
+
+# ---------------------------------------------------------------------------
+# The same facades over the real OS (used by the real-OS replay of interleavings: identical
+# operation granularity by construction)
+
+
+class RealHandle:
+    def __init__(self, fs, path, mode, f):
+        self.fs, self.path, self.mode, self.f = fs, path, mode, f
+        self._data = None
+        self._pos = 0
+
+    def __enter__(self):
+        return self
+
+    def __exit__(self, *exc):
+        self.close()
+        return False
+
+    _buf = None
+    closed = False
+
+    def write(self, data):
+        data = bytes(data)
+        self._buf = data if self._buf is None else self._buf + data
+        return len(data)
+
+    def flush(self):
+        if self._buf is not None:
+            data, self._buf = self._buf, None
+            self.fs.do("write", self, data)
+
+    def close(self):
+        if not self.closed:
+            self.closed = True
+            self.flush()
+            self.f.close()
+
+    def _load(self):
+        if self._data is None:
+            self._data = self.fs.do("readall", self)
+
+    read = Handle.read
+    readline = Handle.readline
+    readinto = Handle.readinto
+
+
+class RealFS:
+    """do(op, ...) against the real operating system; `gate(op)` is called before every step."""
+
+    def __init__(self, gate=None):
+        self.gate = gate
+        self.cwd = None
+
+    def _abs(self, p):
+        import os
+
+        return os.path.abspath(p)
+
+    split_writes = True
+
+    def do(self, op, *args):
+        if op == "write" and self.split_writes:
+            handle, data = args
+            half = len(data) // 2
+            return self._step("write", handle, data[:half]) + self._step("write", handle, data[half:])
+        return self._step(op, *args)
+
+    def _step(self, op, *args):
+        if self.gate is not None:
+            self.gate(op, args)
+        return getattr(self, "_" + op)(*args)
+
+    def _stat(self, p):
+        import os
+
+        if os.path.isdir(p):
+            return "dir"
+        if os.path.isfile(p):
+            return "file"
+        return "other" if os.path.exists(p) else None
+
+    def _lstat(self, p):
+        import os
+
+        if os.path.islink(p):
+            return "link"
+        return self._stat(p) if os.path.lexists(p) else None
+
+    def _mkdir(self, p):
+        import os
+
+        os.mkdir(p)
+
+    def _open_w(self, p):
+        return RealHandle(self, p, "w", open(p, "wb"))
+
+    def _write(self, handle, data):
+        n = handle.f.write(data)
+        handle.f.flush()
+        return n
+
+    def _open_r(self, p):
+        return RealHandle(self, p, "r", open(p, "rb"))
+
+    def _readall(self, handle):
+        return handle.f.read()
+
+    def _unlink(self, p):
+        import os
+
+        os.remove(p)
+
+    def _symlink(self, target, linkpath):
+        import os
+
+        os.symlink(target, linkpath)
+
+    def _rename(self, a, b):
+        import os
+
+        os.replace(a, b)
+
+    def _realpath(self, p):
+        import os
+
+        return os.path.realpath(p)
+
+    def _listdir(self, p):
+        import os
+
+        return sorted(os.listdir(p))
+
+    def _readlink(self, p):
+        import os
+
+        return os.readlink(p)
+
+    def _chdir(self, p):
+        import os
+
+        os.chdir(p)
